@@ -38,15 +38,18 @@ def enumerate_vectors(ctx, fams, full):
     return vecs, res
 
 
-def run_vectors(ctx, vecs, conc, framed=True, name="vec"):
+def run_vectors(ctx, vecs, conc, framed=True, name="vec", fifo_every=0):
     binp = ctx.go_build("./cmd/sshdvec")
     vp = ctx.path("vectors-%s.jsonl" % name)
     with open(vp, "w") as f:
         for v in vecs:
             f.write(json.dumps(v) + "\n")
     tp = ctx.path("trace-%s.ndjson" % name)
-    p = ctx.run([binp, "-in", vp, "-out", tp, "-seed", str(ctx.seed), "-conc", str(conc),
-                 "-framed=%s" % ("true" if framed else "false")], timeout=1800)
+    cmd = [binp, "-in", vp, "-out", tp, "-seed", str(ctx.seed), "-conc", str(conc),
+           "-framed=%s" % ("true" if framed else "false")]
+    if fifo_every:
+        cmd += ["-fifodir", ctx.work, "-fifoevery", str(fifo_every)]
+    p = ctx.run(cmd, timeout=3600)
     stats = json.loads(p.stdout.strip().splitlines()[-1])
     return tp, stats
 
@@ -158,7 +161,7 @@ def run(ctx, prop):
     conc = (4 if ctx.quick else 12)
     if len(vecs) > 60000:
         conc = 4
-    tp, stats = run_vectors(ctx, vecs, conc)
+    tp, stats = run_vectors(ctx, vecs, conc, fifo_every=(1 if prop == "C07" else 0))
     bad, nlines, states = validate(ctx, tp, "main")
     nself = selftest(ctx, tp, preds)
     mine = [b for b in bad if b["what"] in preds]
@@ -202,7 +205,7 @@ def run(ctx, prop):
         "samples": samples,
         "vectors": len(vecs), "tlc_vector_states": res["distinct"],
         "records_validated_by_tlc": nlines, "trace_validation_tlc_states": states,
-        "framed_deliveries": stats["framed"], "events_emitted": stats["events"],
+        "framed_deliveries": stats["framed"], "fifo_deliveries": stats.get("fifo", 0), "events_emitted": stats["events"],
         "predicates": preds, "binding_selftest_mutants_rejected": nself,
         "emitting_by_form": stats["emitting"],
         "exhaustive": False,
